@@ -1,6 +1,7 @@
 import DSV.Lemmas.Outcome
 import DSV.Lemmas.Tally
 import DSV.Lemmas.History
+import DSV.Lemmas.StepWF
 import DSV.Props.C14Observe
 /-!
 # C05 — lifecycle is monotone; retirement freezes state; specimen marking is exact
@@ -99,6 +100,38 @@ theorem retired_frozen_step (env : Env) (cfg : Cfg) (σ : Sched) (hσ : σ.IsSch
   simp only [List.not_mem_nil, if_false]
   unfold carried isReportable
   simp [hp]
+
+/-- **retirement is final over any history**: from a retired state, every later agreed outcome — whatever
+    the observers vote, attach or report, for any number of rounds — is retired, defines exactly the same
+    channels, and keeps every validity start it retired with (up to the whole-second truncation the
+    version-0 codec applies once).  Hence every retirement report of a retired instance carries the same
+    validity starts, whichever retired round it is taken from. -/
+theorem retired_frozen_run (env : Env) (cfg : Cfg) (henv : EnvWF env) (o0 : Outcome) (hw : WFOutcome o0)
+    (hr : o0.stage = stageRetired) (rs : List Round) (hrs : ∀ r ∈ rs, RoundOK env r) :
+    ∀ o ∈ run env cfg o0 rs,
+      o.stage = stageRetired ∧ (∀ k, o.defs.get? k = o0.defs.get? k) ∧
+      ∀ c v, o0.va.get? c = some v → (o.va.get? c = some v ∨ o.va.get? c = some (truncVA cfg v)) := by
+  have key := run_invariant_rounds env cfg (RoundOK env)
+    (fun o => o.stage = stageRetired ∧ WFOutcome o ∧ (∀ k, o.defs.get? k = o0.defs.get? k) ∧
+      ∀ c v, o0.va.get? c = some v → (o.va.get? c = some v ∨ o.va.get? c = some (truncVA cfg v)))
+    (by
+      intro r o o' hq ⟨hst, hwf, hdefs, hva⟩ hs
+      obtain ⟨o1, h1, h2⟩ := step_ok hs
+      obtain ⟨hst1, hd1, hv1⟩ := retired_frozen_step env cfg r.σ hq.1 r.nAos o o1 r.obs hwf.2 h1 hst
+      have hwf1 := outcome_wf henv hq.2 hwf h1
+      obtain ⟨hst', _, hwd', hwv', hgd, hgv, _⟩ := codecRoundTrip_ok h2 hwf1.1 hwf1.2
+      refine ⟨by rw [hst', hst1], ⟨hwd', hwv'⟩, ?_, ?_⟩
+      · intro k; rw [hgd k, hd1]; exact hdefs k
+      · intro c v hv
+        right
+        rw [hgv c]
+        rcases hva c v hv with h | h
+        · rw [hv1 c v h]; rfl
+        · rw [hv1 c _ h]; simp [truncVA_idem])
+    o0 ⟨hr, hw, fun _ => rfl, fun c v hv => Or.inl hv⟩ rs hrs
+  intro o ho
+  obtain ⟨h1, _, h3, h4⟩ := key o ho
+  exact ⟨h1, h3, h4⟩
 
 /-- **a retired outcome yields exactly one retirement report carrying its validity starts and no
     channel report** -/
